@@ -15,9 +15,9 @@ RULE = ('E4 fault enumerator (same spaces as C09: single-byte corruptions, '
         'case is one input; non-trivial = more than 12 steps executed (the '
         'decoder went past the envelope checks).')
 BOUNDS = {'quick': {'step_budget': '256 + 16*len', 'memory_budget':
-                    '1 MiB + 1024*len (length/tag rewrites, truncations, shapes)'},
+                    '256 KiB + 64*len (length/tag rewrites, truncations, shapes, large values); retained <= 64 KiB'},
           'thorough': {'step_budget': '256 + 16*len', 'memory_budget':
-                       '1 MiB + 1024*len (all but small-string and pair tasks)'}}
+                       '256 KiB + 64*len (all but small-string and pair tasks); retained <= 64 KiB'}}
 ASSUMPTIONS = ['work is measured in steps = function entries + jumps executed '
                'inside pamqp (sys.monitoring); C-level work per step - '
                'slicing, UTF-8 decoding - is linear in the slice length and '
@@ -36,7 +36,7 @@ def _decode(data):
     return lib.pamqp().frame.unmarshal(data)
 
 
-def check_one(ctx, data, label, memory=False):
+def check_one(ctx, data, label, memory=False, retained=False):
     global _MON
     if _MON is None:
         lib.pamqp()             # import outside the traced region
@@ -61,10 +61,10 @@ def check_one(ctx, data, label, memory=False):
     ctx.outcome('returned' if outcome == 'ok' else 'raised')
     if memory:
         peak, _o = steps.peak_memory(_decode, data)
-        limit = (1 << 20) + 1024 * len(data)
+        limit = (256 << 10) + 64 * len(data)
         ctx.peak('peak_bytes', peak)
-        ctx.peak('peak_bytes_minus_1MiB_per_byte',
-                 max(0, peak - (1 << 20)) // max(1, len(data)))
+        ctx.peak('peak_bytes_per_input_byte_x100',
+                 peak * 100 // max(1, len(data)))
         ctx.count('memory_measured')
         if peak > limit:
             ctx.outcome('memory-exceeded')
@@ -73,14 +73,31 @@ def check_one(ctx, data, label, memory=False):
                           '{})'.format(label, len(data), peak, limit),
                           {'hex': data.hex(), 'label': label, 'memory': True},
                           '<= %d bytes' % limit, '%d bytes' % peak)
+    if retained:
+        kept = steps.retained_memory(_decode, data)
+        ctx.peak('retained_bytes', kept)
+        ctx.count('retention_measured')
+        if kept > RETAINED_LIMIT:
+            ctx.outcome('memory-retained')
+            ctx.violation('retained|' + label,
+                          '{}: {} bytes stay allocated after decoding {} '
+                          'bytes and dropping the result (limit {})'.format(
+                              label, kept, len(data), RETAINED_LIMIT),
+                          {'hex': data.hex() if len(data) < 4000 else None,
+                           'label': label, 'retained': True},
+                          '<= %d bytes' % RETAINED_LIMIT, '%d bytes' % kept)
     return used
+
+
+RETAINED_LIMIT = 64 << 10
 
 
 def run(task, ctx):
     # memory is measured where lengths are rewritten or data is cut (the
     # cases that can make a decoder allocate beyond its input); 16-bit
     # sweeps are measured in thorough only
-    kinds = ('rewrite', 'truncate', 'shapes', 'short')
+    kinds = ('rewrite', 'truncate', 'shapes', 'short', 'large',
+             'nested-short')
     if ctx.tier == 'thorough':
         kinds += ('byte',)
     memory = task[0] in kinds and (ctx.tier == 'thorough' or len(task) < 4)
@@ -94,7 +111,8 @@ def run(task, ctx):
             if ctx.outcomes.get('budget-exceeded', 0) >= 50:
                 ctx.cap('a task was abandoned after 50 budget violations')
                 break
-            used = check_one(ctx, data, label, memory)
+            used = check_one(ctx, data, label, memory,
+                             retained=task[0] == 'large')
             ctx.case(data, used > 12, sample=lambda: {
                 'label': label, 'input': data[:48].hex(), 'len': len(data),
                 'steps': used})
